@@ -108,11 +108,17 @@ def main(ctx, replay=None):
             settings = {"T_MIN": tmin, "DT": dt, "NT": nt, "NTV": 9, "order": qorder, "volume_ratio": vratio}
             kw = dict(nv=int(c["nv"]), lattice=bool(c["lattice"]), interpolator=c["interp"], order=int(c["order"]), settings=settings)
             ds = free_dataset(rng, extra_shear=int(rng.integers(2, 10)), **kw) if c["system"] == "none" else system_dataset(rng, exports, c["system"], **kw)
+            if c["system"] == "none" and n % 3 == 0:
+                # a listed component that vanishes identically (a table that spells out a zero column, no symmetry filling to remove it)
+                zk = [k for k in ds.keys if k[0] != k[1] and not (k[0] <= 3 and k[1] <= 3)]
+                if zk:
+                    ds.polys[zk[int(rng.integers(0, len(zk)))]] = (0.0, 0.0, 0.0, 0.0)
             # leave to the packaged defaults what equals them (half of the time): the settings file then has a partial mode_gamma group
             ds.omit = {f for f, key in (("interpolator", "interp"), ("order", "order")) if c[key] == DEFAULT_MG[key] and rng.random() < 0.5}
             d = wd.sub(f"c{n}")
             case = {k: c[k] for k in ("interp", "order", "nv", "system", "tmin", "dt", "lattice")}
             case["left_to_defaults"] = sorted(ds.omit)
+            case["explicit_zero_column"] = any(all(x == 0.0 for x in ds.polys[k]) for k in ds.keys)
             case.update(nt=nt, qha_order=qorder, volume_ratio=vratio)
             ctx.count(case)
             sig = {"interp": c["interp"]}
